@@ -64,28 +64,24 @@ end MdVerif.BlockExt
 namespace MdVerif.FootnotesTree
 open Py
 
-mutual
+/-- not a `div` whose class is exactly `footnote` -/
+def qtFn (tag : Tag) (attrs : List (Str × Str)) : Bool :=
+  !(tag == .name "div".toList &&
+    ((attrs.find? (fun kv => kv.1 = "class".toList)).map (·.2)).getD [] == "footnote".toList)
+
 /-- no `div` whose class is exactly `footnote` -/
-def fnDivFreeNode : Node → Bool
-  | ⟨tag, attrs, _, _, children, _, _⟩ =>
-    !(tag == .name "div".toList &&
-      ((attrs.find? (fun kv => kv.1 = "class".toList)).map (·.2)).getD [] == "footnote".toList) &&
-    fnDivFreeKids children
-def fnDivFreeKids : List Node → Bool
-  | [] => true
-  | c :: r => fnDivFreeNode c && fnDivFreeKids r
-end
+def fnDivFreeNode (n : Node) : Bool := BlockExt.allNodes qtFn n
 
 mutual
-theorem duplicates_id (fn : Footnotes.State) : ∀ (n : Node), fnDivFreeNode n = true → duplicates fn n = some n
+theorem duplicates_id (fn : Footnotes.State) : ∀ (n : Node), BlockExt.allNodes qtFn n = true → duplicates fn n = some n
   | ⟨tag, attrs, text, ta, children, tail, tla⟩, h => by
-    simp only [fnDivFreeNode, Bool.and_eq_true, Bool.not_eq_true'] at h
+    simp only [BlockExt.allNodes, qtFn, Bool.and_eq_true, Bool.not_eq_true'] at h
     simp only [duplicates, duplicatesKids_id fn children h.2, h.1, Bool.false_eq_true, if_false]
-theorem duplicatesKids_id (fn : Footnotes.State) : ∀ (l : List Node), fnDivFreeKids l = true →
+theorem duplicatesKids_id (fn : Footnotes.State) : ∀ (l : List Node), BlockExt.allKids qtFn l = true →
     duplicatesKids fn l = some l
   | [], _ => rfl
   | c :: r, h => by
-    simp only [fnDivFreeKids, Bool.and_eq_true] at h
+    simp only [BlockExt.allKids, Bool.and_eq_true] at h
     simp only [duplicatesKids, duplicates_id fn c h.1, duplicatesKids_id fn r h.2]
 end
 
